@@ -7,7 +7,7 @@ EXTRA = {  # patches that are (also) expected to be caught by other checks
     "c01_halton_cursor_not_reset_on_reseed": ["C01", "C13"], "c05_batch_index_incremented_after_checkpoint": ["C05", "C04"], "c11_history_extended_before_loss": ["C11", "C02"],
     "C19-b": ["C19", "C10"], "C11-a": ["C11", "C02"], "C09-a": ["C09", "C05"], "C05-a": ["C05", "C09"], "C03-b": ["C03", "C15"], "C08-a": ["C08", "C02"], "C07-b": ["C07", "C08"],
     "C18-d": ["C11"], "C02-d": ["C02", "C16"], "C09-c": ["C09", "C05", "C04"], "C09-d": ["C09", "C10"], "C10-d": ["C10", "C09"],
-    "C02-f": ["C08"], "C05-f": ["C05", "C04"],
+    "C02-f": ["C08"], "C05-f": ["C05", "C04"], "C07-f": ["C08"], "C10-f": ["C10", "C11"], "C14-f": ["C14", "C02"], "C18-e": ["C04"], "C09-f": ["C09", "C10"], "C11-f": ["C11", "C10"],
 }
 # not a violation under the property as we read it (DESIGN.md 11.8): must stay silent
 EXPECT_SILENT = {("C07-d", "C07")}
